@@ -6,8 +6,6 @@ from vlib import structs as T
 
 ID = "C05"
 PROP_FILE = "Props/C05.v"
-THEOREMS = ["C05_step", "C05_history", "C05_fused", "C05_no_panic", "C05_len_exact", "C05_clone_independent", "C05_nth_back_exact",
-            "C05_nonvacuous"]
 RULE = ("enums with N = 0..8 enabled variants (field-less, with payloads, generic, with interleaved disabled variants), each built "
         "in a dev AND a release crate. Histories: (a) state cover: every (front, back) cursor pair reachable in the model "
         "(including the frozen ones) is reached by a shortest prefix, then every operation of the alphabet {next, next_back, "
